@@ -15,6 +15,8 @@ import Drv.Util
 import Nq.Trigger
 import Nq.SelPrep
 import Nq.Spec.SelQueued
+import Nq.SelFds
+import Nq.TriggerRelaxed
 
 open Nq Nq.Trigger Drv
 
@@ -67,7 +69,14 @@ def feed (d : D) (ev : Ev) (what : String) : IO D := do
       | none => pure ()
       return d
     | none =>
-      IO.println s!"DISAGREE {d.c.hdr} event#{d.c.nev + 1} rejected: {what} {repr ev}"
+      -- which single guard (Nq.TriggerRelaxed) rejects it: the three that C16_guards_necessary shows to be genuine assumptions, or the one
+      -- (trigger_set before opendir) that C16_order_opendir_guard_removed shows the invariant does not need
+      let g := if (acceptX { opendirAnywhere := true } s ev).isSome then "guard=opendir_without_a_preceding_trigger_set(safety_not_affected,the_FIFO_is_not_cleared)"
+        else if (acceptX { pullBeforeLink := true } s ev).isSome then "guard=pull_before_link(C16_guards_necessary)"
+        else if (acceptX { skipScan := true } s ev).isSome then "guard=re-arm_not_followed_by_a_scan(C16_guards_necessary)"
+        else if (acceptX { endEarly := true } s ev).isSome then "guard=readdir_returned_NULL_before_every_covered_entry(C16_guards_necessary)"
+        else "guard=other"
+      IO.println s!"DISAGREE {d.c.hdr} event#{d.c.nev + 1} rejected: {what} {repr ev} {g}"
       return { d with st := { d.st with disagree := d.st.disagree + 1 }, c := { d.c with st := none, bad := true } }
 
 /-! ### the select-preparation leg -/
@@ -197,6 +206,24 @@ def snapOracle (s : Snap) (tmo : Int) (rf wf : List String) : Option String :=
         else if (s.chans.zipIdx.any fun (c, i) => c.spawnAlive && c.commPending && !wf.contains s!"c{i}") then some "pending_command_not_watched"
         else none
 
+def parseNats (v : String) : Option (List Nat) :=
+  if v == "-" then some [] else (v.splitOn ",").mapM (·.toNat?)
+
+def sortNat (l : List Nat) : List Nat := (l.toArray.qsort (· < ·)).toList
+
+open Nq.SelPrep in
+/-- the numeric side of a snapshot (absent in traces of an older harness): nfds as passed, the descriptor numbers, every member of both sets -/
+def parseFds (toks : List String) : Option (Nq.SelFds.FdNums × Nat × List Nat × List Nat) := do
+  if kvOf toks "nfds" == "" then none
+  let nf ← (kvOf toks "nfds").toNat?
+  let tfd ← (kvOf toks "tfd").toInt?
+  let rs ← parseNats (kvOf toks "rset")
+  let ws ← parseNats (kvOf toks "wset")
+  match parseNats (kvOf toks "fdout"), parseNats (kvOf toks "fdin") with
+  | some [o0, o1], some [i0, i1] =>
+    return ({ out := fun c => if c == 0 then o0 else o1, inn := fun c => if c == 0 then i0 else i1, trig := tfd.toNat }, nf, rs, ws)
+  | _, _ => none
+
 def lastNum (path : String) : Option Nat := (path.splitOn "/").getLast?.bind (·.toNat?)
 
 def handleT (d : D) (toks : List String) : IO D := do
@@ -266,6 +293,32 @@ def handle (d : D) (line : String) : IO D := do
       if mt != tmo || mrf != sortStr rf || mwf != sortStr wf then
         if d.snapBad < 20 then IO.println s!"DISAGREE {d.c.hdr} select#{d.c.nsnap} model timeout={mt} rfds={mrf} wfds={mwf} impl: {" ".intercalate rest}"
         d := { d with snapBad := d.snapBad + 1, st := { d.st with disagree := d.st.disagree + 1 } }
+      -- the numeric side (Nq.SelFds): nfds and the sets by descriptor number.  DISAGREE: the model's nfds / sets differ from what the code
+      -- passed; ORACLE (C16_wake_fds_watched on the implementation's values): every descriptor the daemon must wake up on - report pipe of a
+      -- live spawner, command pipe with buffered commands, the armed trigger - is in the implementation's set AND below its nfds
+      match parseFds rest with
+      | some (f, nf, rs, ws) =>
+        let mnf := Nq.SelFds.nfds s f
+        d := { d with st := (d.st.bump "fds_selects_compared").bump s!"fds_nfds_{nf}" }
+        if (Nq.SelFds.mustRead s f).any (fun fd => fd + 1 == nf && fd == f.trig) && s.triggerFd then d := { d with st := d.st.bump "fds_trigger_is_the_highest" }
+        if (Nq.SelFds.mustWrite s f).any (fun fd => fd + 1 == nf) then d := { d with st := d.st.bump "fds_command_pipe_is_the_highest" }
+        if (Nq.SelFds.mustRead s f).any (fun fd => fd + 1 == nf && fd != f.trig) then d := { d with st := d.st.bump "fds_report_pipe_is_the_highest" }
+        if s.chans.any (fun c => c.spawnAlive && c.used > 0) then d := { d with st := d.st.bump "fds_with_deliveries_outstanding" }
+        if s.chans.any (fun c => !c.spawnAlive) then d := { d with st := d.st.bump "fds_with_a_dead_spawner" }
+        if s.triggerFd && (s.chans.zipIdx.any fun (c, i) => c.spawnAlive && f.trig < f.inn i) then d := { d with st := d.st.bump "fds_trigger_below_a_report_pipe" }
+        if !(Nq.SelFds.mustWrite s f).isEmpty then d := { d with st := d.st.bump "fds_with_commands_buffered" }
+        if mnf != nf || sortNat (Nq.SelFds.rset s f) != rs || sortNat (Nq.SelFds.wset s f) != ws then
+          if d.snapBad < 20 then IO.println s!"DISAGREE {d.c.hdr} select#{d.c.nsnap} model nfds={mnf} rset={sortNat (Nq.SelFds.rset s f)} wset={sortNat (Nq.SelFds.wset s f)} impl: {" ".intercalate rest}"
+          d := { d with snapBad := d.snapBad + 1, st := { d.st with disagree := d.st.disagree + 1 } }
+        match Nq.SelFds.wakeOracle s f nf rs ws with
+        | some why =>
+          if d.st.oracle < 20 then IO.println s!"ORACLE {d.c.hdr} select#{d.c.nsnap} why={why}(nfds={nf},rfds={rs},wfds={ws}) snap: {" ".intercalate rest}"
+          d := { d with st := { d.st with oracle := d.st.oracle + 1 } }
+        | none => pure ()
+      | none =>
+        if kvOf rest "nfds" != "" then
+          if d.snapBad < 20 then IO.println s!"DISAGREE {d.c.hdr} select#{d.c.nsnap} unparsable descriptor numbers: {" ".intercalate rest}"
+          d := { d with snapBad := d.snapBad + 1, st := { d.st with disagree := d.st.disagree + 1 } }
       let qd := parseQueued rest
       -- the timeval's microsecond half (qsim's select writes the remaining time back like Linux): SelPrep passes whole seconds
       let usec : Int := ((kvOf rest "tusec").toInt?).getD 0
